@@ -537,7 +537,7 @@ def s4(chk: Check, proj: Project, w) -> None:
 
 
 MANIFEST = {
-    "text": "Decides that one generated id per render is the value used everywhere (metadata behind Component.id, ComponentContext, context key, registries, deferred renderer, root-attribute step, marker), that the metadata stack is LIFO, that the id's alphabet/length is what the reader patterns match, that the generator's entropy is not the seedable global random, that root attributes are handed over per child without bulk operations, and that only the root runs the composition loop (no recursion growing with nesting depth). Also: the reader accepts the placeholder with ANY number of inherited root attributes (regex inclusion with a Kleene star), the metadata stack is per instance (or per instance and thread), no Python recursion grows with nesting (deferred template render, acyclic render call graph, no deepcopy/pickle on the render path), the isolated copy forwards the component key unconditionally, the root-attribute step always goes through the HTML parser, and child attributes are looked up afresh in every queue iteration. Round 4: no explicit nesting-depth limit on the render path. Round 5: list-content flow analysis of the root-attribute list (own id / css attributes reach the roots whenever given, inherited ones always); every id has the full length (returns only under len(id) == size, `while True` never falls through); a slot reference renders its slot on every coercion.",
+    "text": "Decides that one generated id per render is the value used everywhere (metadata behind Component.id, ComponentContext, context key, registries, deferred renderer, root-attribute step, marker), that the metadata stack is LIFO, that the id's alphabet/length is what the reader patterns match, that the generator's entropy is not the seedable global random, that root attributes are handed over per child without bulk operations, and that only the root runs the composition loop (no recursion growing with nesting depth). Also: the reader accepts the placeholder with ANY number of inherited root attributes (regex inclusion with a Kleene star), the metadata stack is per instance (or per instance and thread), no Python recursion grows with nesting (deferred template render, acyclic render call graph, no deepcopy/pickle on the render path), the isolated copy forwards the component key unconditionally, the root-attribute step always goes through the HTML parser, and child attributes are looked up afresh in every queue iteration. Round 4: no explicit nesting-depth limit on the render path. Round 5: list-content flow analysis of the root-attribute list (own id / css attributes reach the roots whenever given, inherited ones always); every id has the full length (returns only under len(id) == size, `while True` never falls through); a slot reference renders its slot on every coercion. Round 6: the nested placeholder is safe HTML (shared with C01-S6); the template and the template_rendered signal run inside _with_metadata.",
     "note": "Trusted: the external HTML parser sets root_attributes on exactly the top-level elements (its behaviour is outside the repository). Not decided: which elements are roots; absence of the id on other elements.",
     "technique": "static def-use / provenance through parameters and closures; regex language inclusion; control dependence",
 }
